@@ -761,7 +761,7 @@ func c02Case(w *core.Worker, i int) {
 					continue
 				}
 				r2 := core.RunProc(core.ProcOpts{Dir: fd, Args: csvqArgs("-q", "-f", "JSONL", "SELECT * FROM `"+out+"`"), Timeout: 60 * time.Second})
-				// csvq writes a line break inside a text as the file's own line break (cells alike): the three kinds are one here
+				// the name travels in the statement text, where the scanner reads CR LF inside a quoted name as LF: the three kinds are one here
 				wantKey, _ := json.Marshal(strings.ReplaceAll(strings.ReplaceAll(name, "\r\n", "\n"), "\r", "\n"))
 				want := "{" + string(wantKey) + ":\"1\",\"c\":\"2\"}"
 				got := strings.ReplaceAll(strings.ReplaceAll(strings.TrimSpace(r2.Stdout), ":1,", ":\"1\","), ":2}", ":\"2\"}")
